@@ -1,7 +1,7 @@
 (* C13Proofs.v — lemmas behind Prop_C13 that are not about the crop readers: date formats agree
    (from the C12 development), witnesses. *)
 From Coq Require Import ZArith List Bool Ascii String Floats Lia.
-From Hermes Require Import Util Num Calendar DateModel DateProofs CropParamModel CropParamProofs CropSamples.
+From Hermes Require Import Util Num Calendar DateModel DateProofs PredDateModel CropParamModel CropParamProofs CropSamples.
 Import ListNotations.
 Local Open Scope Z_scope.
 
@@ -19,6 +19,39 @@ Proof.
   cbv zeta in R1, R2. rewrite Hciv in R1, R2. cbn [dy dm dd] in R1, R2.
   destruct (R1 W1) as [_ A]. destruct (R2 W2) as [_ B].
   exists (Z.of_N n). split; [unfold LAST_N in Hn; lia|]. split; assumption.
+Qed.
+
+(* the year of the prediction date as LangTag extracts it = the year DateConverter works with = the civil
+   year - 1900, for every date a format can express (from the C12 text lemmas) *)
+Lemma prediction_year_lemma : forall f sep cent y m d,
+  sep_ok sep -> 0 <= cent <= 100 -> 1901 <= y <= 2099 -> valid_date (mkdate y m d) = true -> in_window f cent y ->
+  langtag_year cent f (render_date f sep y m d) = Some (y - 1900) /\
+  datum_year cent f (render_date f sep y m d) = Some (y - 1900).
+Proof.
+  intros f sep cent y m d Hs Hc Hy Hv Hw.
+  destruct (valid_bounds (mkdate y m d) Hv) as [Hm Hd]. cbn [dm dd] in Hm, Hd.
+  unfold langtag_year, datum_year, in_window in *.
+  destruct f; cbn [is_short render_date] in *.
+  - (* DEshort *)
+    set (yy := if 99 <? y - 1900 then y - 1900 - 100 else y - 1900).
+    assert (Hyy : 0 <= yy <= 99) by (unfold yy; destruct (Z.ltb_spec 99 (y - 1900)); lia).
+    destruct (extract_short d m yy sep Hs ltac:(lia) ltac:(lia) Hyy) as [T E]. cbv zeta in T, E. rewrite T, E.
+    unfold yy. destruct (Z.ltb_spec 99 (y - 1900)).
+    + destruct (Z.ltb_spec (y - 1900 - 100) cent); [|lia]. split; f_equal; lia.
+    + destruct (Z.ltb_spec (y - 1900) cent); [lia|]. split; reflexivity.
+  - (* DElong *)
+    destruct (extract_long d m y sep Hs ltac:(lia) ltac:(lia) Hy) as [T E]. cbv zeta in T, E. rewrite T, E.
+    destruct (Z.ltb_spec y 1901); [lia|]. split; reflexivity.
+  - (* ENshort *)
+    set (yy := if 99 <? y - 1900 then y - 1900 - 100 else y - 1900).
+    assert (Hyy : 0 <= yy <= 99) by (unfold yy; destruct (Z.ltb_spec 99 (y - 1900)); lia).
+    destruct (extract_short m d yy sep Hs ltac:(lia) ltac:(lia) Hyy) as [T E]. cbv zeta in T, E. rewrite T, E.
+    unfold yy. destruct (Z.ltb_spec 99 (y - 1900)).
+    + destruct (Z.ltb_spec (y - 1900 - 100) cent); [|lia]. split; f_equal; lia.
+    + destruct (Z.ltb_spec (y - 1900) cent); [lia|]. split; reflexivity.
+  - (* ENlong *)
+    destruct (extract_long m d y sep Hs ltac:(lia) ltac:(lia) Hy) as [T E]. cbv zeta in T, E. rewrite T, E.
+    destruct (Z.ltb_spec y 1901); [lia|]. split; reflexivity.
 Qed.
 
 Definition hl100 : lstr := repeat "-"%char 65 ++ lstr_of "100".
